@@ -725,8 +725,9 @@ fn cmd_run(prop: &str, tier: &str, seed: u64, workers: u64, hists_override: Opti
                 lines.push(format!("VIOLATION property=C01 replay={path}"));
             }
         } else {
-            eprintln!("HARNESS-ERROR: worker death in history {h}: {what}");
-            harness_error = true;
+            // termination and memory are C01's business (there a death is a violation); for the other properties the
+            // history is skipped, counted and named, and the rest of the worker's slice is re-run
+            println!("note: history {h} killed its worker ({what}); skipped for {prop} - run `./check C01` for crash/resource findings");
         }
     }
     if let Some(path) = &c20_addr_violation {
